@@ -3273,6 +3273,18 @@ class C14(Prop):
                                                   ([(b'lim', ('a', [('n', 1.0), ('n', 2.0)]))] if r.random() < 0.5 else [])) for j in range(r.randint(1, 4))]))])
             fl = sorted({x for x in ('wrap', 'id') if x in path})
             cases.append(Case('ca%d' % i, path.encode(), [doc], fl, sorted(set(ags)), r.random() < 0.15, meta={'fs': [('agg', a_) for a_ in ags], 'nsteps': 2}))
+        # an existence test whose operand selects several values and ends in a filter function (also negated, under && / ||): the
+        # function is called for EVERY value the group selects, whatever the verdict turns out to be
+        for i in range(max(40, n // 60)):
+            def grp():
+                return r.choice([('a', [r.choice([('n', float(r.randint(0, 9))), ('s', b'x'), ('n', 4.0)]) for _ in range(r.randint(2, 4))]),
+                                 ('o', [(kk, r.choice([('n', float(r.randint(0, 9))), ('s', b'y')])) for kk in r.sample([b'p', b'q', b'a', b'z'], r.randint(2, 4))])])
+            doc = ('a', [r.choice([grp(), ('o', [(b'a', grp()), (b'k', ('n', 1.0))]), ('a', [grp(), grp()])]) for _ in range(r.randint(1, 3))])
+            fn = r.choice(['id', 'fstr', 'twice', 'tn', 'fstr'])
+            op_ = r.choice(['@.*', '@[*]', '@..a', "@['p','q']", '@[0,1]', '@[0:]', '@.a.*', '@.a[*]', '@[*][*]', '@[?(@)]', '@..*'])
+            body = r.choice(['%s.%s()', '!%s.%s()', '%s.%s() && @', '@.k || %s.%s()', '%s.%s() || @.zz'])
+            path = '$[?(' + body % (op_, fn) + ')]'
+            cases.append(Case('vg%d' % i, path.encode(), [doc], [fn], [], r.random() < 0.15, meta={'fs': [('ffun', fn)], 'nsteps': 2, 'family': 'value-group-existence-function'}))
         go, mo = both_sides(cases)
         go_p = core.run_go(pres) if pres else []
         for c, g_, m in zip(cases, go, mo):
